@@ -117,6 +117,14 @@ def helper_case(rng: random.Random, cuts: dict, base: dict | None = None) -> dic
             "max_turns": 200000,
             "_msgs": msgs,
         }
+        if exp is not None and has_name and rng.random() < 0.12:
+            # the announced name is the expected one plus bytes that are not valid UTF-8 (in front, inside, behind): another
+            # name, however it is decoded for display
+            e = exp.encode()
+            k = rng.randrange(len(e) + 1)
+            raw = e[:k] + pick(rng, [b"\xff", b"\xc3", b"\xe2\x82", b"\x80"]) + e[k:]
+            base["device"]["noise_name_hex"] = raw.hex()
+            base["device"]["noise_name"] = raw.decode("utf-8", errors="replace")  # (what the oracle expects to be reported)
         if rng.random() < 0.15:
             # a responder whose handshake message carries a payload (legal in Noise; the ESPHome firmware sends none)
             base["device"]["noise_hs_payload"] = bytes(rng.getrandbits(8) for _ in range(pick(rng, [1, 2, 16, 100]))).hex()
